@@ -183,6 +183,7 @@ SIGS = {
     "acquireConnection": r"SessionId acquireConnection\(const ParsedUrl &parsedUrl\)",
     "resolveHostAddress": r"std::string resolveHostAddress\(const ParsedUrl &parsedUrl\) const",
     "parseUrl": r"ParsedUrl parseUrl\(const std::string &url\) const",
+    "setTlsConfig": r"void setTlsConfig\(const TlsConfig &config\)",
     "start": r"void start\(\)",
     "enableTls": r"void enableTls\(const TlsConfig &config\)",
 }
@@ -426,7 +427,7 @@ def walk_ctx(nodes, path, side, ctxvar, steps, info):
             continue
         m = re.fullmatch(r"::SSL_CTX_set_cipher_list\(%s, %sciphers\.c_str\(\)\)" % (cv, cfg), t)
         if m:
-            steps.append((path, '(.other "SSL_CTX_set_cipher_list")'))
+            steps.append((path, ".setCipherList"))
             continue
         m = re.fullmatch(r"::SSL_CTX_set_verify_depth\(%s, %sverifyDepth\)" % (cv, cfg), t)
         if m:
@@ -558,7 +559,7 @@ def ssl_calls_in(nodes):
     names = []
     def rec(ns):
         for nd in ns:
-            names.extend(re.findall(r"::(SSL_\w+)\s*\(", nd[1]))
+            names.extend(re.findall(r"(?<![\w])(?:::)?((?:SSL|X509)_\w+)\s*\(", nd[1]))
             if nd[0] == "if":
                 rec(nd[2]); rec(nd[3])
             elif nd[0] == "loop":
@@ -582,6 +583,36 @@ def refusal_guard(nodes, reqvar, side, fn, before_index):
     return g
 
 
+BLOCK_STMT_OK = [
+    r"s->tlsMode = TlsMode::(Client|Server)$", r"s->ssl = ::SSL_new\(_ssl(Cli|Srv)\)$", r"::SSL_set_fd\(s->ssl, cfd\)$",
+    r"::SSL_set_(connect|accept)_state\(s->ssl\)$", r"s->tlsState = TlsState::Handshake$", r"s->tlsStart = MonoClock::now\(\)$",
+    r"s->tlsWantWrite = true$", r"scheduleHandshakeTimeout\(s\.get\(\)\)$",
+    r"::SSL_set_tlsext_host_name\(s->ssl, cr\.host\.c_str\(\)\)$", r"\(void\)::SSL_set_tlsext_host_name\(s->ssl, cr\.host\.c_str\(\)\)$",
+    r"::SSL_set1_host\(s->ssl, cr\.host\.c_str\(\)\)$",
+    # failure reporting of a connect/accept that ends here
+    r"decltype\(_cbs\.onClose\) closeCb$", r"std::lock_guard<std::mutex> g\(_cbMutex\)$", r"closeCb = _cbs\.onClose$",
+    r"closeCb\(cr\.sid, TransportErrorInfo\{TransportError::TLSHandshake, \" *\"\}\)$", r"err\(TransportError::TLSHandshake, \" *\"\)$",
+    r"cancelConnectTimeout\(s\.get\(\)\)$", r"::SSL_free\(s->ssl\)$", r"::close\(cfd\)$", r"return false$", r"continue$",
+]
+BLOCK_COND_OK = [r"!s->ssl$", r"closeCb$", r"!isIPv4 && !isIPv6$", r"_config\.clientTls\.verifyPeer$",
+                 r"_config\.clientTls\.verifyPeer && ::SSL_set1_host\(s->ssl, cr\.host\.c_str\(\)\) != 1$"]
+
+
+def classify_block(nodes, fn):
+    """every statement inside an SSL_new block must be a known one: an unknown call (prefixed or not) is a broken tie"""
+    for nd in nodes:
+        if nd[0] == "stmt":
+            if not any(re.match(pt, nd[1]) for pt in BLOCK_STMT_OK):
+                raise TranslateError("%s: unclassified statement inside the SSL_new block: %r" % (fn, nd[1]))
+        elif nd[0] == "if":
+            if not any(re.match(pt, nd[1]) for pt in BLOCK_COND_OK):
+                raise TranslateError("%s: unclassified condition inside the SSL_new block: %r" % (fn, nd[1]))
+            classify_block(nd[2], fn)
+            classify_block(nd[3], fn)
+        else:
+            raise TranslateError("%s: loop inside the SSL_new block" % fn)
+
+
 def connect_site(src):
     nodes = parse_stmts(body_of(src, "doConnect"))
     idx = [i for i, nd in enumerate(nodes) if nd[0] == "if" and find_paths(nd[2], lambda x: x[0] == "stmt" and "::SSL_new(" in x[1])]
@@ -594,6 +625,7 @@ def connect_site(src):
     if blk[3]:
         raise TranslateError("doConnect: the SSL_new block has an else-branch (unmodelled)")
     ssl_new = parse_guard(blk[1], "client", "cr.tls")
+    classify_block(blk[2], "doConnect")
     # the session is inserted unconditionally after the block (plain session when the guard is false)
     after = nodes[idx[0] + 1:]
     if not find_paths(after, lambda x: x[0] == "stmt" and "_sessions.emplace(" in x[1] and True) or \
@@ -661,6 +693,7 @@ def listen_site(src):
     blk = [nd for nd in on[0][2] if nd[0] == "if" and nd[1] == path[1][1]]
     if len(blk) != 1 or blk[0][3]:
         raise TranslateError("onListener: the SSL_new block has an else-branch (unmodelled)")
+    classify_block(blk[0][2], "onListener")
     unknown = [c for c in ssl_calls_in(on) if c not in SSL_SESSION_OK]
     if unknown:
         raise TranslateError("onListener: unmodelled OpenSSL call(s) %s" % sorted(set(unknown)))
@@ -669,34 +702,82 @@ def listen_site(src):
 
 # ------------------------------------------------------------------ session announce / send guards
 def session_facts(src):
-    """Guards that keep a TLS session silent until the handshake is done (C07-T7, shared with C01-T2)."""
+    """Guards that keep a TLS session silent until the handshake is done (C07-T7/T8). Every fact is CONSUMED by
+    `sessStep` in Model/TlsPlan.lean (the model misbehaves when a fact is false), so each one is load-bearing."""
     f = {}
+    HS = "s->tlsMode != TlsMode::None && s->tlsState == TlsState::Handshake"
+    OPEN = "s->tlsMode != TlsMode::None && s->tlsState == TlsState::Open"
     dh = norm(body_of(src, "driveHandshake"))
-    # the only place the session becomes Open and onConnect fires for a TLS session is under `rc == 1` of SSL_do_handshake
     m = re.search(r"int rc = ::SSL_do_handshake\(s->ssl\); if \(rc == 1\) \{(.*?)return true; \}", dh)
     if not m:
         raise TranslateError("driveHandshake: `int rc = ::SSL_do_handshake(s->ssl); if (rc == 1) {...}` not found")
     okb = m.group(1)
-    f["openOnlyOnRc1"] = "s->tlsState = TlsState::Open" in okb and dh.count("s->tlsState = TlsState::Open") == 1
+    if dh.count("return true;") != 1:
+        raise TranslateError("driveHandshake: more than one `return true` (completion must be reported under rc == 1 only)")
+    f["openOnlyOnRc1"] = "s->tlsState = TlsState::Open" in okb and dh.count("s->tlsState = TlsState::Open") == 1 and \
+        src.count("tlsState = TlsState::Open") == 1
     f["connectCbOnlyOnRc1"] = "connectCb(" in okb and dh.count("connectCb(") == 1
-    f["openBeforeConnectCb"] = okb.find("s->tlsState = TlsState::Open") < okb.find("connectCb(")
     tail = dh[m.end():]
-    f["failureCloses"] = bool(re.search(r"closeNow\(s, TransportError::TLSHandshake, msg", tail))
+    f["failureCloses"] = bool(re.search(r"closeNow\(s, TransportError::TLSHandshake, msg, \(int\)e\); _atomicStats\.tlsFailures\+\+; return false;$", tail.strip()))
     f["wantIoKeepsHandshake"] = bool(re.search(r"if \(errc == SSL_ERROR_WANT_READ \|\| errc == SSL_ERROR_WANT_WRITE\) \{[^{}]*return false; \}", tail))
+    # doSend
+    ds_nodes = parse_stmts(body_of(src, "doSend"))
     ds = norm(body_of(src, "doSend"))
-    f["sendQueuedDuringHandshake"] = bool(re.search(
-        r"if \(s->tlsMode != TlsMode::None && s->tlsState == TlsState::Handshake\) \{[^{}]*s->wq\.emplace_back\(std::move\(sr\.payload\)\);[^{}]*return; \}", ds))
-    qpos = ds.find("s->tlsState == TlsState::Handshake")
-    spos = min([p for p in (ds.find("::send("), ds.find("::SSL_write(")) if p >= 0] or [-1])
-    f["sendGuardPrecedesIo"] = 0 <= qpos < spos
-    f["rawSendOnlyWhenNotOpenTls"] = bool(re.search(r"if \(s->tlsMode != TlsMode::None && s->tlsState == TlsState::Open\) \{.*?::SSL_write\(", ds))
-    os_ = norm(body_of(src, "onSession"))
-    f["plainAnnounceRequiresModeNone"] = bool(re.search(r"if \(s->connectPending && s->tlsMode == TlsMode::None\)", os_)) and os_.count("connectCb(") == 1
-    f["handshakeDrivenFirst"] = bool(re.search(r"if \(s->tlsMode != TlsMode::None && s->tlsState == TlsState::Handshake\) \{.*?if \(!driveHandshake\(s\)\) \{ return; \}", os_))
-    wp = norm(body_of(src, "writePending"))
-    f["writePendingSkipsHandshake"] = bool(re.search(r"s->tlsState == TlsState::Handshake", wp)) or None
-    dc = norm(body_of(src, "doConnect"))
-    f["immediateAnnounceRequiresReqNone"] = bool(re.search(r"if \(cr\.tls == TlsMode::None\) \{", dc)) and dc.count("connectCb(") == 1
+    qi = [i for i, nd in enumerate(ds_nodes) if nd[0] == "if" and nd[1] == HS]
+    f["sendQueuedDuringHandshake"] = bool(qi) and not ds_nodes[qi[0]][3] and \
+        ("stmt", "s->wq.emplace_back(std::move(sr.payload))") in ds_nodes[qi[0]][2] and ds_nodes[qi[0]][2][-1] == ("stmt", "return")
+    io_first = [i for i, nd in enumerate(ds_nodes) if find_paths([nd], lambda x: "::send(" in x[1] or "::SSL_write(" in x[1])]
+    f["sendGuardPrecedesIo"] = bool(qi) and bool(io_first) and qi[0] < io_first[0]
+    def ssl_when_open(nodes, fn):
+        """every raw `::send(` of fn sits in the else-branch of `if (<tls session is Open>)` whose then-branch does SSL_write"""
+        sends = find_paths(nodes, lambda x: x[0] == "stmt" and "::send(" in x[1])
+        if not sends:
+            raise TranslateError("%s: no raw ::send found" % fn)
+        return all(("else", OPEN) in pth for pth, _ in sends) and \
+            all(("if", OPEN) in pth for pth, _ in find_paths(nodes, lambda x: x[0] == "stmt" and "::SSL_write(" in x[1]))
+    f["doSendSslWhenOpenTls"] = ssl_when_open(ds_nodes, "doSend")
+    wp_nodes = parse_stmts(body_of(src, "writePending"))
+    f["writePendingSslWhenOpenTls"] = ssl_when_open(wp_nodes, "writePending")
+    f["writePendingSkipsHandshake"] = bool(find_paths(wp_nodes, lambda x: x[0] == "if" and "TlsState::Handshake" in x[1]))
+    # onSession: handshake branch first, returns while the handshake is incomplete; else-branch announces plain sessions only
+    os_nodes = parse_stmts(body_of(src, "onSession"))
+    hb = [i for i, nd in enumerate(os_nodes) if nd[0] == "if" and nd[1] == HS]
+    wpi = [i for i, nd in enumerate(os_nodes) if find_paths([nd], lambda x: x[0] == "stmt" and x[1] == "writePending(s)")]
+    rdi = [i for i, nd in enumerate(os_nodes) if find_paths([nd], lambda x: x[0] == "stmt" and x[1] == "readAvail(s)")]
+    f["handshakeDrivenFirst"] = len(hb) == 1 and bool(wpi) and bool(rdi) and hb[0] < min(wpi[0], rdi[0])
+    f["handshakeReturnsWhenIncomplete"] = False
+    f["plainAnnounceRequiresModeNone"] = False
+    if len(hb) == 1:
+        thn, els = os_nodes[hb[0]][2], os_nodes[hb[0]][3]
+        # nothing but logging / `SessionId sid = s->id` may precede `if (!driveHandshake(s)) { return; }`
+        k = 0
+        while k < len(thn) and thn[k][0] == "stmt" and re.match(r"(IORA_LOG_\w+\(|SessionId sid = s->id$)", thn[k][1]):
+            k += 1
+        f["handshakeReturnsWhenIncomplete"] = k < len(thn) and thn[k][0] == "if" and thn[k][1] == "!driveHandshake(s)" and \
+            [x for x in thn[k][2] if not (x[0] == "stmt" and x[1].startswith("IORA_LOG_"))] == [("stmt", "return")] and not thn[k][3]
+        cbs = find_paths(os_nodes, lambda x: x[0] == "stmt" and "connectCb(" in x[1])
+        f["plainAnnounceRequiresModeNone"] = len(cbs) == 1 and ("if", "s->connectPending && s->tlsMode == TlsMode::None") in cbs[0][0] and \
+            bool(find_paths(els, lambda x: x[0] == "stmt" and "connectCb(" in x[1]))
+    dc_nodes = parse_stmts(body_of(src, "doConnect"))
+    cbs = find_paths(dc_nodes, lambda x: x[0] == "stmt" and "connectCb(" in x[1])
+    f["immediateAnnounceRequiresReqNone"] = len(cbs) == 1 and cbs[0][0][:1] == (("if", "cr.tls == TlsMode::None"),)
+    # raw-send sites and the callers of writePending are confined
+    sites = {}
+    starts = [(mm.start(), mm.group(1)) for mm in re.finditer(r"\n  (?:static |virtual |inline )*[\w:<>\*&, ]+?[ \*&](\w+)\([^;{}]*\)\s*(?:const\s*)?(?:override\s*)?\n  \{", src)]
+    def encl(pos):
+        fn = "?"
+        for p0, name in starts:
+            if p0 < pos:
+                fn = name
+            else:
+                break
+        return fn
+    raw = sorted(set(encl(mm.start()) for mm in re.finditer(r"(?<![\w>.])(?:::)?send\(\s*s->fd", src)))
+    callers = sorted(set(encl(mm.start()) for mm in re.finditer(r"(?<![\w])writePending\(s\)", src)))
+    if raw != ["doSend", "writePending"]:
+        raise TranslateError("tcp_engine.hpp: raw ::send(s->fd, ...) outside doSend/writePending: %r" % raw)
+    if callers != ["onSession"]:
+        raise TranslateError("tcp_engine.hpp: writePending(s) called outside onSession: %r" % callers)
     return f
 
 
@@ -830,6 +911,36 @@ def http_url_facts(src):
             "checks_mode": checks_mode}
 
 
+def http_reconf_facts(src):
+    """setTlsConfig: does a call that would change the settings after the transport exists throw (instead of being ignored)?
+    And: the TLS settings are read in ensureInitialized only, once (guarded by `!_transport`)."""
+    body = norm(body_of(src, "setTlsConfig"))
+    if body == "std::lock_guard<std::mutex> lock(_mutex); _tlsConfig = config;":
+        rejects = False
+    else:
+        m = re.fullmatch(r"std::lock_guard<std::mutex> lock\(_mutex\); if \(_transport && \((.*)\)\) \{ throw std::logic_error\(.*\); \} _tlsConfig = config;", body)
+        if not m:
+            raise TranslateError("HttpClient::setTlsConfig: unrecognised shape: %r" % body)
+        cmp_ = sorted(c.strip() for c in split_top(m.group(1), "||"))
+        want = sorted("config.%s != _tlsConfig.%s" % (f, f) for f in ("verifyPeer", "caFile", "clientCertFile", "clientKeyFile"))
+        if cmp_ != want:
+            raise TranslateError("HttpClient::setTlsConfig: the change test does not compare every TlsConfig field: %r" % (cmp_,))
+        rejects = True
+    m = re.search(r"struct TlsConfig\s*\{", src)
+    fields = re.findall(r"(?:bool|std::string)\s+(\w+)", src[m.end():cxxscan.match_brace(src, m.end() - 1)])
+    if sorted(fields) != ["caFile", "clientCertFile", "clientKeyFile", "verifyPeer"]:
+        raise TranslateError("HttpClient::TlsConfig fields changed: %r" % fields)
+    uses = [mm.start() for mm in re.finditer(r"_tlsConfig\b", src)]
+    ei = re.search(SIGS["ensureInitialized"], src)
+    ei_end = cxxscan.match_brace(src, src.index("{", ei.end()))
+    st = re.search(SIGS["setTlsConfig"], src)
+    st_end = cxxscan.match_brace(src, src.index("{", st.end()))
+    for u in uses:
+        if not (ei.start() < u < ei_end or st.start() < u < st_end or re.match(r"_tlsConfig;", src[u:u + 11])):
+            raise TranslateError("HttpClient: _tlsConfig is used outside ensureInitialized/setTlsConfig")
+    return rejects
+
+
 def m_port(pu):
     m = re.search(r'\? (\d+) : (\d+);', pu)
     return m.group(1), m.group(2)
@@ -868,7 +979,9 @@ CONFIG_CALLS = {"SSL_CTX_set_verify": {"initTls"}, "SSL_CTX_set_min_proto_versio
 KNOWN_CALLS = set(CONFIG_CALLS) | {"SSL_CTX_free", "SSL_CTX_set_cipher_list", "SSL_CTX_use_certificate_file", "SSL_CTX_use_PrivateKey_file", "SSL_CTX_check_private_key",
                                    "SSL_CTX_get0_certificate", "SSL_CTX_set_verify_depth", "SSL_CTX_set_alpn_select_cb", "SSL_CTX_set_alpn_protos",
                                    "SSL_set_fd", "SSL_set_accept_state", "SSL_set_connect_state", "SSL_do_handshake", "SSL_get_error", "SSL_read", "SSL_write",
-                                   "SSL_shutdown", "SSL_free", "SSL_load_error_strings", "SSL_library_init"}
+                                   "SSL_shutdown", "SSL_free", "SSL_load_error_strings", "SSL_library_init",
+                                   "TLS_server_method", "TLS_client_method", "X509_cmp_time", "X509_get0_notAfter", "ERR_get_error", "ERR_error_string_n",
+                                   "OPENSSL_init_ssl", "OpenSSL_add_all_algorithms"}
 
 
 def call_inventory(src):
@@ -876,7 +989,8 @@ def call_inventory(src):
     inv = {}
     # function starts: a crude but sufficient index of `name(...) {` definitions at class-member indentation
     starts = [(m.start(), m.group(1)) for m in re.finditer(r"\n  (?:static |virtual |inline )*[\w:<>\*&, ]+?[ \*&](\w+)\([^;{}]*\)\s*(?:const\s*)?(?:override\s*)?\n  \{", src)]
-    for m in re.finditer(r"::(SSL_\w+)\s*\(", src):
+    src = blank_strings(src)
+    for m in re.finditer(r"(?<![\w])(?:::)?((?:SSL|X509|ERR|TLS|DTLS|OPENSSL|EVP|BIO)_\w+)\s*\(", src):
         fn = "?"
         for pos, name in starts:
             if pos < m.start():
@@ -920,6 +1034,7 @@ def gen(repo):
     inv = call_inventory(src)
     cmap, host_src, https_req, http_req, localhost_to = http_client_facts(hc)
     uf = http_url_facts(hc)
+    reconf_rejects = http_reconf_facts(hc)
     smap, s_on, s_off, req_ck, req_ca = http_server_facts(hs)
     tls12 = openssl_const("TLS1_2_VERSION")
 
@@ -937,9 +1052,10 @@ def gen(repo):
         c_ref.lean(), c_new.lean(), c_sni.lean(), c_s1h.lean(), "true" if c_fc else "false")
     t += "\n/-- `doAddListener` refusal; guard of the `SSL_new(_sslSrv)` block of `onListener` (no else-branch: otherwise the accepted session is plain) -/\n"
     t += "def listenSite : ListenSite :=\n  { refuse := %s\n    sslNew := %s }\n" % (l_ref.lean(), l_new.lean())
-    t += "\n/-- announce / send guards of `driveHandshake`, `onSession`, `doSend`, `doConnect` (true = the guard is present in the source) -/\n"
-    for k in ("openOnlyOnRc1", "connectCbOnlyOnRc1", "openBeforeConnectCb", "failureCloses", "wantIoKeepsHandshake", "sendQueuedDuringHandshake",
-              "sendGuardPrecedesIo", "rawSendOnlyWhenNotOpenTls", "plainAnnounceRequiresModeNone", "handshakeDrivenFirst", "immediateAnnounceRequiresReqNone"):
+    t += "\n/-- announce / send guards of `driveHandshake`, `onSession`, `doSend`, `writePending`, `doConnect` (true = present in the source); each is consumed by `sessStep` -/\n"
+    for k in ("openOnlyOnRc1", "connectCbOnlyOnRc1", "failureCloses", "wantIoKeepsHandshake", "sendQueuedDuringHandshake",
+              "sendGuardPrecedesIo", "doSendSslWhenOpenTls", "writePendingSslWhenOpenTls", "writePendingSkipsHandshake", "plainAnnounceRequiresModeNone",
+              "handshakeDrivenFirst", "handshakeReturnsWhenIncomplete", "immediateAnnounceRequiresReqNone"):
         t += "def %s : Bool := %s\n" % (k, "true" if sf[k] else "false")
     t += "\n" + lean_map("httpClientMap", cmap, "`HttpClient::ensureInitialized`: where each field of `transportConfig.clientTls` comes from")
     t += "/-- `HttpClient::acquireConnection`: the string handed to `connectSync`, the mode for https / http URLs, what `localhost` resolves to -/\n"
@@ -953,6 +1069,8 @@ def gen(repo):
     t += "def isHttpsLiteral : String := \"https\"\ndef httpsDefaultPort : Nat := %d\ndef httpDefaultPort : Nat := %d\n" % (uf["https_port"], uf["http_port"])
     t += "/-- `acquireConnection`: the cache is keyed by host:port; does the reuse test also require the entry's TLS mode to equal the request's -/\n"
     t += "def cacheReuseChecksTlsMode : Bool := %s\n" % B(uf["checks_mode"])
+    t += "/-- `setTlsConfig`: the TLS settings are read once, in `ensureInitialized`; does a later call that would CHANGE them throw (true) or is it silently ignored (false) -/\n"
+    t += "def setTlsConfigRejectsChangeAfterInit : Bool := %s\n" % B(reconf_rejects)
     t += "\n" + lean_map("httpServerMap", smap, "`HttpServer::start`: where each field of `config.serverTls` comes from (only when `enableTls` was called)")
     t += "/-- listener mode with / without `enableTls`; `enableTls` preconditions -/\n"
     t += "def httpServerTlsReq : Mode := %s\ndef httpServerPlainReq : Mode := %s\ndef enableTlsRequiresCertAndKey : Bool := %s\ndef enableTlsRequiresCaForClientCert : Bool := %s\n" % (
